@@ -15,6 +15,11 @@ Check/C05.v, which evaluates `accept` and compares accept/reject.
   val   = ["bool", b] | ["rat", n, d] | ["str", text] | ["set"]
   dep   = {"root", "ns", "short", "ver", "deprecated", "service", "union", "fields": [tx..], "extent": int|None,
            "lookup": bool}     (lookup: lives in another root namespace passed as a lookup directory)
+  case["referrers"] (optional) = "none" | "before" | "after" | "both": further definitions of the same root namespace
+           that REFER TO the definition under test and are processed before / after it (they sort before / after it);
+           they are valid whenever the definition under test is a valid message type, so the verdict on the whole
+           set must be the verdict on the definition under test, whatever the processing order.
+           api "files-referrer": read_files is given only a referrer, the definition under test is reached as its dependency.
 """
 import copy
 import gallina as G
@@ -114,6 +119,21 @@ def rel_path(ident):
     if ident.get("port") is not None:
         name = "%d.%s" % (ident["port"], name)
     return "/".join([ident["root"]] + list(ident["ns"]) + [name])
+
+
+REFERRER_NAMES = {"before": ["A0Ref"], "after": ["zz9Ref"], "both": ["A0Ref", "zz9Ref"], "none": []}
+
+
+def referrer_files(case):
+    """(relative path, text) of the definitions that refer to the definition under test; always deprecated (a deprecated
+    type may use deprecated and non-deprecated types alike), sealed, version 1.0, directly in the root namespace"""
+    i = case["id"]
+    ref = "%s.%d.%d" % (".".join([i["root"]] + list(i["ns"]) + [i["short"]]), i["ver"][0], i["ver"][1])
+    out = []
+    for k, name in enumerate(REFERRER_NAMES[case.get("referrers", "none")]):
+        form = ["%s item", "%s[<=4] items", "%s[2] pair"][(k + len(i["short"])) % 3] % ref
+        out.append(("%s/%s.1.0.dsdl" % (i["root"], name), "@deprecated\n%s\n@sealed\n" % form))
+    return out
 
 
 def dep_sections(d):
@@ -364,8 +384,18 @@ def run_impl(cases):
                 p.write_text(render_sections(dep_sections(d), "nl"), encoding="utf8")
                 if d["lookup"]:
                     lookups.add(top / d["root"])
+            ref_paths = []
+            for rp, text in referrer_files(case):
+                p = base / "t" / rp
+                p.parent.mkdir(parents=True, exist_ok=True)
+                p.write_text(text, encoding="utf8")
+                ref_paths.append(p)
+            transitive = []
             try:
-                if case["api"] == "files":
+                if case["api"] == "files-referrer" and ref_paths:
+                    direct, transitive = pydsdl.read_files([ref_paths[0]], [tgt_root], sorted(lookups),
+                                                           allow_unregulated_fixed_port_id=case["allow"])
+                elif case["api"] in ("files", "files-referrer"):
                     direct, _ = pydsdl.read_files([tgt_file], [tgt_root], sorted(lookups),
                                                   allow_unregulated_fixed_port_id=case["allow"])
                 else:
@@ -374,7 +404,7 @@ def run_impl(cases):
                 o = {"verdict": "accept"}
                 i = case["id"]
                 want = ".".join([i["root"]] + list(i["ns"]) + [i["short"]])
-                got = [t for t in direct if t.full_name == want and tuple(t.version) == tuple(i["ver"])]
+                got = [t for t in list(direct) + list(transitive) if t.full_name == want and tuple(t.version) == tuple(i["ver"])]
                 if len(got) != 1:
                     o["pred_fail"] = "the accepted definition is not among the returned types"
                 elif got[0].fixed_port_id != i["port"] or isinstance(got[0], pydsdl.ServiceType) != (len(case["sections"]) == 2):
@@ -1220,6 +1250,14 @@ def gen_soup(rng):
 
 def finish(rng, case):
     fix_extents(rng, case)
+    if "referrers" not in case:
+        # only message types can be nested; a referrer of a service would be invalid on its own account
+        if len(case["sections"]) == 1 and rng.random() < 0.35:
+            case["referrers"] = rng.choice(["before", "after", "both"])
+            if case["api"] == "files" and rng.random() < 0.6:
+                case["api"] = "files-referrer"
+        else:
+            case["referrers"] = "none"
     return case
 
 
@@ -1299,6 +1337,10 @@ def boundaries(rng):
     for ver in ((0, 0), (0, 1), (1, 0), (255, 255), (255, 0), (0, 255), (256, 0), (0, 256), (255, 256), (256, 255)):
         for service in (False, True):
             add(minimal(ver=ver, service=service), "version:%d.%d" % ver)
+        for refs in ("before", "after"):
+            c = minimal(ver=ver)
+            c["referrers"] = refs
+            add(c, "version:%d.%d:referred" % ver)
         c = gen_skeleton(rng)
         c["id"]["ver"] = list(ver)
         add(c, "version:%d.%d:in-skeleton" % ver)
@@ -1309,8 +1351,15 @@ def boundaries(rng):
             lo, hi = ((384, 511) if std else (256, 383)) if service else ((7168, 8191) if std else (6144, 7167))
             for p in sorted({0, 1, lo - 1, lo, lo + 1, hi - 1, hi, hi + 1, full - 1, full, full + 1}):
                 for allow in (False, True):
-                    add(minimal(root=root, service=service, port=p, allow=allow), "port:%s:%s:%d:%s" % (
-                        "std" if std else "vendor", "service" if service else "subject", p, "allow" if allow else "regulated"))
+                    for refs in (("none", "before", "after", "files-referrer") if not service else ("none",)):
+                        c = minimal(root=root, service=service, port=p, allow=allow)
+                        c["referrers"] = "before" if refs == "files-referrer" else refs
+                        if refs == "files-referrer":
+                            c["api"] = "files-referrer"
+                        if refs != "none" and rng.random() < 0.5:
+                            c["id"]["ns"] = ["zeta"]
+                        add(c, "port:%s:%s:%d:%s%s" % ("std" if std else "vendor", "service" if service else "subject", p,
+                                                        "allow" if allow else "regulated", "" if refs == "none" else ":referred"))
     for _ in range(12):
         for delta in (0, -8, 8, 1, -1, 4, "half"):
             c = gen_skeleton(rng)
@@ -1432,7 +1481,7 @@ def describe(case, obs):
     v = "accepted" if obs["verdict"] == "accept" else "rejected" if obs["verdict"] == "InvalidDefinition" else "other:" + obs["verdict"]
     tags = case["tags"]
     planted = [t for t in tags if not t.startswith("boundary:") and t not in ("soup", "shuffle")]
-    keys = ["verdict:" + v, "api:" + case["api"], "ending:" + case["ending"], "decor:" + case.get("decor", "plain"), "allow_unregulated:%s" % case["allow"],
+    keys = ["verdict:" + v, "api:" + case["api"], "referrers:" + case.get("referrers", "none"), "ending:" + case["ending"], "decor:" + case.get("decor", "plain"), "allow_unregulated:%s" % case["allow"],
             "kind:%s" % ("service" if len(case["sections"]) == 2 else "message" if len(case["sections"]) == 1 else "3+sections"),
             "deps:%d" % min(len(case["deps"]), 3)]
     if not tags:
@@ -1484,7 +1533,9 @@ def shrink(case):
 
 RULE = ("a case is one definition in abstract form (identity, statements per section, dependencies) rendered to DSDL text, written "
         "with its dependencies into a scratch root namespace (plus lookup namespaces) and read with read_namespace (80 %) or "
-        "read_files (20 %), allow_unregulated_fixed_port_id both ways; streams: boundary neighbours of every numeric rule and every "
+        "read_files (20 %), allow_unregulated_fixed_port_id both ways; a third of the message definitions are accompanied by valid "
+        "definitions of the same namespace that refer to them and are processed before and/or after them (or are the only file given to "
+        "read_files), so that a violating definition must be rejected whatever the processing order; streams: boundary neighbours of every numeric rule and every "
         "reserved name/pattern with near misses (targeted), the grid message/service x structure/union x deps x deprecated of valid "
         "skeletons, and skeletons with 0, 1 or 2 planted violations out of 23 categories (plus random permutations of a section) at random positions (random), and statement soups without any skeleton (hostile); "
         "non-trivial = at least two statements; distinct = by hash of the case")
